@@ -188,3 +188,11 @@ impl core::ops::DivAssign<F64> for F64 { #[verifier::external_body] fn div_assig
 impl<'b> DivAssignSpecImpl<&'b F64> for F64 { open spec fn obeys_div_assign_spec() -> bool { false } open spec fn div_assign_req(&self, rhs: &'b F64) -> bool { true } open spec fn div_assign_spec(&self, rhs: &'b F64) -> &F64 { arbitrary() } }
 impl<'b> core::ops::DivAssign<&'b F64> for F64 { #[verifier::external_body] fn div_assign(&mut self, rhs: &'b F64) ensures final(self)@ == xr_div(old(self)@, rhs@) { self.v /= rhs.v } }
 //@LITERALS@
+impl F64 {
+    // f64::total_cmp (IEEE totalOrder): on finite values it agrees with the strict order; equal reals may still be ordered (-0.0 < +0.0), so nothing is
+    // claimed for them
+    #[verifier::external_body]
+    pub fn total_cmp(&self, other: &F64) -> (o: core::cmp::Ordering)
+        ensures self@ is Fin && other@ is Fin ==> (self@->Fin_0 < other@->Fin_0 ==> o is Less) && (self@->Fin_0 > other@->Fin_0 ==> o is Greater)
+    { self.v.total_cmp(&other.v) }
+}
